@@ -1,14 +1,18 @@
 #!/bin/bash
-# run_mutant.sh <seeded id> [check ids...] : apply seeded/<id>/patch.diff to /repo, run the quick checks, undo.
-# Prints one line per check: <id> <check> exit=<rc> <VIOLATION lines>
+# run_mutant.sh <seeded id> [check ids...] : apply seeded/<id>/patch.diff to a scratch worktree of /repo's HEAD (outside /repo and /verif,
+# removed afterwards), run the quick checks against it (VERIF_REPO), print one line per check:
+#   <id> <check> exit=<rc> <n> violation line(s): <first classes>
+# /repo itself is not touched, so this can run next to other checks.  Evidence goes to build/tmp/ev_mutant.
 ID=$1; shift
 cd /verif
-P=seeded/$ID/patch.diff
-git -C /repo diff --quiet || { echo "/repo working tree not clean"; exit 2; }
-git -C /repo apply $PWD/$P || { echo "patch does not apply"; exit 2; }
+P=$PWD/seeded/$ID/patch.diff
+WT=/tmp/mutant_wt_$$
+git -C /repo worktree add -q --detach $WT HEAD || { echo "cannot create scratch worktree"; exit 2; }
+trap 'git -C /repo worktree remove --force $WT >/dev/null 2>&1; git -C /repo worktree prune; find /verif/build/scratch -mindepth 1 -maxdepth 1 -mmin +90 -exec rm -rf {} + 2>/dev/null' EXIT
+git -C $WT apply $P || { echo "patch does not apply"; exit 2; }
+mkdir -p build/tmp
 for C in "$@"; do
-  out=$(VERIF_SEED=${VERIF_SEED:-1} checks/check.sh $C quick 2>&1); rc=$?
+  out=$(VERIF_REPO=$WT VERIF_EVIDENCE_DIR=build/tmp/ev_mutant VERIF_SEED=${VERIF_SEED:-1} checks/check.sh $C quick 2>&1); rc=$?
   echo "$ID $C exit=$rc $(echo "$out" | grep -c '^VIOLATION') violation line(s): $(echo "$out" | grep '^  class' | head -3 | cut -c1-160 | tr '\n' '|')"
   echo "$out" > build/tmp/mutant_${ID}_$C.out
 done
-git -C /repo checkout -- .
